@@ -774,4 +774,6 @@ func runC20(c *Ctx) {
 
 	// ---- end-to-end layer (c20_e2e.go)
 	c20E2E(c)
+	// ---- round 5: shared helpers on rare shapes (c20_r5.go)
+	c20R5(c)
 }
